@@ -32,8 +32,9 @@ INVALID_EXPRS = ['contains(', ')(', 'amount >', 'lambda: 1', 'x = 1', '"abc', 'a
 VIEW_EXPRS = ['total > 100', 'months >= 6', 'category == "Food" and cv < 0.5', 'sum(payments) / 12', 'is_frequent',
               '"a:b" in tags', 'x == "p=q"', 'count(payments) > 1', '1',
               'merchant == "SHELL #12"', "'#' in merchant", 'total > 1 # big ones', 'total > 1 #x', 'months >= 2  #  "quoted" tail']
-NAMES = ['Netflix', 'Large Purchase', 'A-1', 'Café', 'x]y', 'a:b', 'q = 1', 'Uber Eats', 'Z', 'Store #12', '#1', 'A # B', 'Shop #']
-VNAMES = ['Big', 'big', 'Every Month', 'A-1', 'Café', 'a:b', 'q = 1', 'Z z', 'Account #2', '#1', 'A # B', 'Top #', 'x#y']
+NAMES = ['Netflix', 'Large Purchase', 'A-1', 'Café', 'x]y', 'a:b', 'q = 1', 'Uber Eats', 'Z', 'Store #12', '#1', 'A # B', 'Shop #',
+         'Costco [Gas]', '[AMZN] Marketplace', '[]', '[', ']', ']x[', '[[x]]', 'Uber [x] Eats', '] [']
+VNAMES = ['Big', 'big', '[x', 'a [b', '[[', 'Every Month', 'A-1', 'Café', 'a:b', 'q = 1', 'Z z', 'Account #2', '#1', 'A # B', 'Top #', 'x#y']
 CATS = ['Food', 'Food: Drink', 'A = B', 'Subscriptions', 'Cafés', 'x#y', 'A #1', 'Food # Drink', '#1', 'Aisle #']
 TAGS = ['a, b', 'fun(x,y), z', 'a,,b', '{field.x}, k', 'one', 'a, a, B', 'f(a, g(b, c)), d)e, f', 'a #1, b', '#x, y #', 'k, # , z']
 DESCS = ['All of it', 'a: b', 'x = y', 'Café visits', 'Our #1 budget line (rent)', 'Shell station #12 and the like', '#1', 'tail #',
@@ -62,10 +63,27 @@ CORPUS_M = [
      ('prop', 'let', 'match', 'x'), ('prop', 'category', 'C'), ('prop', 'category', 'D'), ('prop', 'tags', 'a'), ('prop', 'tags', 'b, c'),
      ('prop', 'priority', '1'), ('prop', 'priority', '2')],
 ]
+CORPUS_M += [
+    # bracket characters inside, at the start and at the end of rule names (the name is what stands between the OUTER pair)
+    [('hdr', 'Costco [Gas]'), ('prop', 'match', 'x'), ('prop', 'category', 'C'),
+     ('hdr', '[AMZN] Marketplace'), ('prop', 'match', 'x'), ('prop', 'tags', 'a'),
+     ('hdr', '[]'), ('prop', 'match', 'x'), ('prop', 'category', 'C'), ('prop', 'merchant', '[M]')],
+    [('hdr', '['), ('prop', 'match', 'x'), ('prop', 'category', 'C'), ('hdr', ']'), ('prop', 'match', 'x'), ('prop', 'category', 'C'),
+     ('hdr', ']x['), ('prop', 'match', 'x'), ('prop', 'category', '[C]'), ('hdr', ' [[x]] '), ('prop', 'match', 'x'), ('prop', 'tags', '[t], u]')],
+    # let / field names that are valid identifiers but look like keywords or transform targets
+    [('var', 'field', '1'), ('tr', 'field', 'x'), ('hdr', 'K'), ('prop', 'let', 'field', '1'), ('prop', 'let', 'let', 'field'),
+     ('prop', 'field', 'field', 'x'), ('prop', 'field', 'match', '1'), ('prop', 'match', 'field'), ('prop', 'category', 'C')],
+]
 CORPUS_V = [
+    [('hdr', '[x'), ('filter', 'x'), ('hdr', 'a [b'), ('filter', '1'), ('desc', '[d]'), ('hdr', '[['), ('filter', 'x'), ('svar', 'field', '1')],
     [('gvar', 'big', '1'), ('gvar', 'Big', 'total > 100'), ('hdr', 'V'), ('svar', 'x', '1'), ('svar', 'X', 'total > 100'),
      ('filter', 'x'), ('filter', 'total > 100'), ('desc', 'one'), ('desc', 'two'), ('hdr', 'v'), ('filter', '1'), ('svar', 'x', '1')],
 ]
+
+
+# names that are NOT a plain identifier (a let / field name must match [a-zA-Z_][a-zA-Z0-9_]* exactly)
+BAD_NAMES = ['field.{n}', 'field.size', 'Field.{n}', 'txn.{n}', '{n}.x', '1{n}', '{n}-1', '{n} y', '{n}()', '"{n}"', '{n}[0]', '.{n}', '{n}.',
+             'field.', 'é{n}']
 
 
 def gen_m_items(rnd, nsec=None):
@@ -94,7 +112,7 @@ def gen_m_items(rnd, nsec=None):
         # let names may repeat (a list of bindings: `let: ref = …` then `let: Ref = f(ref)`), field names too (a dict:
         # the last line for a lower-cased name wins)
         for _ in range(rnd.choice([0, 0, 1, 2, 3])):
-            props.append(('let', casing(rnd, rnd.choice(['x', 'ref', 'is_large', '_t', 'q_2'])), rnd.choice(VALID_EXPRS)))
+            props.append(('let', casing(rnd, rnd.choice(['x', 'ref', 'is_large', '_t', 'q_2', 'field'])), rnd.choice(VALID_EXPRS)))
         for _ in range(rnd.choice([0, 0, 1, 2, 3])):
             props.append(('field', casing(rnd, rnd.choice(['memo', 'kind', 'x_1'])), rnd.choice(VALID_EXPRS)))
         rnd.shuffle(props)
@@ -326,7 +344,8 @@ def layout_edits(kind, items, lines, rnd, per_kind=1):
 
 # ---- single-point corruptions: (name, new lines, expectation) -----------------------------------
 # expectation: None (no claim: the property does not say) | ('reject', line) must be an error naming that line
-def corruptions(kind, items, lines, rnd):
+def corruptions(kind, items, lines, rnd, full=False):
+    """full=True (corpus files): every malformed-name form for every let / field line; otherwise a random pair."""
     n = len(lines)
     out = []
     hdr_of = {}
@@ -367,10 +386,18 @@ def corruptions(kind, items, lines, rnd):
                 alt('unknown_property', 'colour:' + lines[i].split(':', 1)[1], ('reject', L))
                 alt('no_colon', lines[i].replace(':', ' ').replace('=', ' '), ('reject', L))
                 if it[1] == 'let':
-                    alt('bad_let', rnd.choice([f'let: = {it[3]}', f'let: 1{it[2]} = {it[3]}', f'let: {it[2]}', f'let: {it[2]} =', 'let:']), ('reject', L))
+                    for bl in (BAD_NAMES if full else rnd.sample(BAD_NAMES, 2)):
+                        alt('bad_let', f'let: {bl.format(n=it[2])} = {it[3]}', ('reject', L))
+                    forms = (f'let: {it[2]}', f'let: {it[2]} =', 'let:', f'let: {it[2]} {it[3]}', f'let: = {it[3]}')
+                    for bl in (forms if full else rnd.sample(forms, 1)):
+                        alt('bad_let', bl, ('reject', L))
                     alt('invalid_expression', f'let: {it[2]} = {bad}', ('reject', hl))
                 elif it[1] == 'field':
-                    alt('bad_field', rnd.choice([f'field: = {it[3]}', f'field: a.b = {it[3]}', f'field: {it[2]}', 'field: 9 = 1']), ('reject', L))
+                    for bl in (BAD_NAMES if full else rnd.sample(BAD_NAMES, 2)):
+                        alt('bad_field', f'field: {bl.format(n=it[2])} = {it[3]}', ('reject', L))
+                    forms = (f'field: {it[2]}', f'field: {it[2]} =', 'field:', f'field: = {it[3]}')
+                    for bl in (forms if full else rnd.sample(forms, 1)):
+                        alt('bad_field', bl, ('reject', L))
                     # a field line overridden by a later one with the same (lower-cased) name is not the rule's field
                     alt('invalid_expression', f'field: {it[2]} = {bad}', ('reject', hl) if last_field else None)
                 elif it[1] == 'priority':
@@ -378,7 +405,7 @@ def corruptions(kind, items, lines, rnd):
                 elif it[1] == 'match':
                     alt('invalid_expression', f'match: {bad}', ('reject', hl) if last_match else None)
             elif it[0] == 'hdr':
-                alt('header_unclosed', '[' + it[1], ('reject', L))
+                alt('header_unclosed', '[' + it[1], None if header_shaped('m', '[' + it[1]) else ('reject', L))
                 alt('header_empty', rnd.choice(['[]', '[  ]']), ('reject', L))
             elif it[0] in ('var', 'tr'):
                 lhs = lines[i].split('=', 1)[0]
@@ -822,7 +849,7 @@ def build_cases(seed, tier):
             for nm, new, lm in layout_edits(kind, items, lines, rnd, per_kind=per_kind):
                 add(kind=kind, lines=new, role='layout', base=base, edit=nm, linemap=lm)
             errs = []
-            for nm, new, exp in corruptions(kind, items, lines, rnd):
+            for nm, new, exp in corruptions(kind, items, lines, rnd, full=(b < 0)):
                 cid = add(kind=kind, lines=new, role='corrupt', base=base, edit=nm, expect=exp,
                           key=next((i for i in range(min(len(new), len(lines))) if new[i] != lines[i]), min(len(new), len(lines)) - 1))
                 if exp:
